@@ -353,3 +353,17 @@ class Report:
         if self.inconclusive or nontrivial < 2:
             return 2
         return 0
+
+
+def guarded_main(fn):
+    """a check never ends with a stray traceback (exit code 1 is reserved for reported violations): build failures of the
+    tree under test, tool crashes and internal errors are inconclusive results (exit 2)"""
+    try:
+        return fn()
+    except SystemExit:
+        raise
+    except BaseException as e:
+        import traceback
+        print('INCONCLUSIVE: the check could not be completed: %s: %s' % (type(e).__name__, str(e)[-1500:]))
+        traceback.print_exc(limit=4)
+        return 2
